@@ -101,6 +101,33 @@ func init() {
 		if loopBody == nil {
 			fail("anchor unresolved: tier loop of GetBroadcasts")
 		}
+		// the locals the rules talk about, by role: the list of held-out items (the slice whose
+		// elements are handed back to the add helper) and the transmit limit (the local that
+		// holds the limit helper's result)
+		reName, limName := "reinsert", "transmitLimit"
+		inspectFn(get, func(n ast.Node) bool {
+			switch v := n.(type) {
+			case *ast.RangeStmt:
+				if id, ok := ast.Unparen(v.X).(*ast.Ident); ok && len(v.Body.List) == 1 {
+					if es, ok := v.Body.List[0].(*ast.ExprStmt); ok {
+						if call, ok := es.X.(*ast.CallExpr); ok && p.Callee(call) == add.Obj {
+							reName = id.Name
+						}
+					}
+				}
+			case *ast.AssignStmt:
+				if len(v.Lhs) == 1 && len(v.Rhs) == 1 {
+					if call, ok := ast.Unparen(v.Rhs[0]).(*ast.CallExpr); ok {
+						if f := p.Callee(call); f != nil && f.Name() == "retransmitLimit" {
+							if id, ok := v.Lhs[0].(*ast.Ident); ok {
+								limName = id.Name
+							}
+						}
+					}
+				}
+			}
+			return true
+		})
 		xi := c.flowBody(get.Name+"$iteration", get, loopBody)
 		rule3 := "retrieval: an item taken out of the queue is, on every path, either completed (Finished, exactly once) because one more transmit reaches the limit, or has its transmit count advanced by one and is queued for re-insertion - never both, never neither"
 		c.Rule(rule3)
@@ -114,16 +141,16 @@ func init() {
 			// re-insertion: the item is appended to the reinsert list
 			re := 0
 			for k, t := range ex.Store {
-				if strings.HasPrefix(k, "reinsert") && strings.Contains(t.S, "append(") {
+				if strings.HasPrefix(k, reName) && strings.Contains(t.S, "append(") {
 					re = 1
 				}
 			}
 			rel := ""
 			for k, v := range ex.Cube {
 				u := untok(k)
-				if strings.HasPrefix(u, "cmp(") && strings.Contains(u, "transmitLimit") && strings.Contains(u, ".transmits+1)") {
+				if strings.HasPrefix(u, "cmp(") && strings.Contains(u, limName) && strings.Contains(u, ".transmits+1)") {
 					// cmp((keep.transmits+1),transmitLimit) or reversed by name order
-					if strings.Index(u, ".transmits+1)") < strings.Index(u, "transmitLimit") {
+					if strings.Index(u, ".transmits+1)") < strings.Index(u, limName) {
 						rel = v
 					} else {
 						rel = map[string]string{"LT": "GT", "GT": "LT", "EQ": "EQ"}[v]
@@ -155,7 +182,7 @@ func init() {
 		reAdd := false
 		inspectFn(get, func(n ast.Node) bool {
 			if rs, ok := n.(*ast.RangeStmt); ok {
-				if id, ok := ast.Unparen(rs.X).(*ast.Ident); ok && id.Name == "reinsert" && len(rs.Body.List) == 1 {
+				if id, ok := ast.Unparen(rs.X).(*ast.Ident); ok && id.Name == reName && len(rs.Body.List) == 1 {
 					if es, ok := rs.Body.List[0].(*ast.ExprStmt); ok {
 						if call, ok := es.X.(*ast.CallExpr); ok && p.Callee(call) == add.Obj {
 							reAdd = true
